@@ -1,8 +1,11 @@
+#![allow(unexpected_cfgs)] // `kepler_5_rrss_verif` is set by verification builds only
 pub mod analysis;
 pub mod cli;
 pub mod exec;
 pub mod frontend;
 pub mod linter;
+#[cfg(kepler_5_rrss_verif)]
+pub mod verif_seams;
 
 pub fn run() -> i32 {
     let exit_code = match cli::cli(std::env::args()) {
